@@ -415,32 +415,41 @@ func c04Arity(w *World, r *Report) {
 			r.Fail("R04.5", gname+" FUNC productions", token.NoPos, "none found")
 		}
 	}
-	// CodeBltin compares numArgs with len(sym.argTypeCheckers) and latches an error
-	fd, p := w.FuncDecl(codeBltin)
-	numArgs := paramObj(p, fd, 1)
+	// CodeBltin compares numArgs with len(sym.argTypeCheckers) and latches an error:
+	// the store to parseErr is reached exactly when the two differ
+	fd, _ := w.FuncDecl(codeBltin)
 	atc := w.Field("xpath", "Symbol", "argTypeCheckers")
 	parseErr := w.Field("xpath", "ProgBuilder", "parseErr")
 	ok := false
-	for _, s := range fd.Body.List {
-		is, isIf := s.(*ast.IfStmt)
-		if !isIf {
-			continue
-		}
-		be, isB := ast.Unparen(is.Cond).(*ast.BinaryExpr)
-		if !isB || be.Op != token.NEQ {
-			continue
-		}
-		isLen := func(e ast.Expr) bool {
-			ce, ok := ast.Unparen(e).(*ast.CallExpr)
-			if !ok || len(ce.Args) != 1 {
+	if cf := w.SSAFunc(codeBltin); cf != nil && len(cf.Params) >= 3 {
+		sym := NewSym(w)
+		isArity := func(v ssa.Value) bool {
+			arg, ok := isLenCall(v)
+			if !ok {
 				return false
 			}
-			id, ok := ce.Fun.(*ast.Ident)
-			return ok && id.Name == "len" && fieldOfSel(p, ce.Args[0]) == atc
+			ld, ok := arg.(*ssa.UnOp)
+			if !ok {
+				return false
+			}
+			fa, ok := ld.X.(*ssa.FieldAddr)
+			return ok && isFieldAddrOf(fa, atc)
 		}
-		if (objOfIdent(p, be.X) == numArgs && isLen(be.Y)) || (objOfIdent(p, be.Y) == numArgs && isLen(be.X)) {
-			if len(assignsToField(p, is.Body, parseErr)) == 1 {
-				ok = true
+		classify := func(a *pcAtom) string {
+			if a.op == token.EQL && a.x != nil && (a.x == ssa.Value(cf.Params[2]) && isArity(a.y) || a.y == ssa.Value(cf.Params[2]) && isArity(a.x)) {
+				return "same"
+			}
+			return ""
+		}
+		for _, b := range cf.Blocks {
+			for _, in := range b.Instrs {
+				if st, isSt := in.(*ssa.Store); isSt {
+					if fa, isFa := st.Addr.(*ssa.FieldAddr); isFa && isFieldAddrOf(fa, parseErr) {
+						if pcCompare(sym.PathCond(cf.Blocks[0], b, nil), classify, func(env map[string]bool) bool { return !env["same"] }) == "" {
+							ok = true
+						}
+					}
+				}
 			}
 		}
 	}
